@@ -8,7 +8,7 @@ correspond:  convert -> _abstract on random expressions returns an equivalent (m
 oracle:      claripy.simplify / backends.z3.simplify never raise on expressible operators and return an equivalent expression
              (evaluator for BV/Bool, Z3 equivalence query for FP/strings); Solver.simplify keeps the model set (brute force)
 """
-import collections, os
+import collections, os, random
 
 import claripy
 import z3
@@ -56,6 +56,79 @@ def fp_string_templates(rng):
         claripy.StrIndexOf(s, lit, k) == 1, claripy.StrSubstr(k, k, s) == lit, claripy.StrConcat(s, lit) == t,
         claripy.StrReplace(s, lit, t) == s, claripy.StrToInt(s) == 5, claripy.IntToStr(k) == s, claripy.StrIsDigit(s),
     ]
+
+
+def ext_idiom_check(tree, rng):
+    """round trip, backend simplify and public simplify of one tree, each compared with the written tree on every assignment (sampled
+    beyond 8 variable bits); -> None | (function, kind, text)"""
+    bz = claripy.backends.z3
+    a, log, e = X.build_case(tree)
+    if e is not None:
+        return None
+    at = E.from_ast(a)
+    for fn_name, fn in (("roundtrip", lambda z: bz._abstract(bz.convert(z))), ("backends.z3.simplify", bz.simplify), ("claripy.simplify", claripy.simplify)):
+        if a.is_leaf() and fn_name != "claripy.simplify":
+            continue
+        try:
+            s = fn(a)
+        except claripy.errors.ClaripyError as ex:
+            return fn_name, "raises-%s" % type(ex).__name__, "%s(%s) raised %r" % (fn_name, E.sexpr(at), ex)
+        if type(s) is not type(a) or getattr(s, "length", None) != getattr(a, "length", None):
+            return fn_name, "sort-changed", "%s(%s) = %r: length %r became %r" % (fn_name, E.sexpr(at), s, getattr(a, "length", None), getattr(s, "length", None))
+        try:
+            st = E.from_ast(s)
+        except E.Unsupported:
+            continue
+        bad, _ = X.semantic_check(tree, st, rng, limit_bits=8, nsamples=64)
+        if bad:
+            return fn_name, "not-equivalent", "%s(%s) = %s differs at %s: written %s, returned %s" % (fn_name, E.sexpr(at), E.sexpr(st), bad[0], bad[1], bad[2])
+    return None
+
+
+def solver_idiom_spec(rng):
+    w = 3
+    hi = rng.randrange(w); lo = rng.randrange(hi + 1)
+    spec = {"i": rng.choice([hi, hi - lo, hi - lo, rng.randrange(w)]), "k": rng.choice([1, 2]), "hi": hi, "lo": lo,
+            "cmp": rng.choice(["ult-y", "slt-const", "eq-y", "uge-plus-one-y"]), "const": rng.randrange(32),
+            "others": rng.sample(range(6), rng.choice([0, 1, 2])), "consts": [rng.randrange(8) for _ in range(6)]}
+    n = 1 + len(spec["others"])
+    spec["pos"] = rng.randrange(n)
+    spec["cut"] = rng.randrange(n + 1)
+    return spec
+
+
+def solver_idiom_check(spec):
+    """-> None | (solver class, kind, text, spec with the class)"""
+    w = 3
+    x, y = claripy.BVS("mx", w, explicit_name=True), claripy.BVS("my", w, explicit_name=True)
+    idi = claripy.Concat(*([x[spec["i"]:spec["i"]]] * spec["k"] + [x[spec["hi"]:spec["lo"]]]))
+    n = idi.length
+    yy = y[n - 1:0] if n <= w else y.zero_extend(n - w)
+    atom = {"ult-y": lambda: claripy.ULT(idi, yy), "slt-const": lambda: claripy.SLT(idi, claripy.BVV(spec["const"] % (1 << n), n)),
+            "eq-y": lambda: idi == yy, "uge-plus-one-y": lambda: claripy.UGE(idi + 1, yy)}[spec["cmp"]]()
+    c = spec["consts"]
+    pool = [claripy.ULT(x, c[0]), x + y == c[1], y != c[2], claripy.SLE(x, y), claripy.UGT(y, c[4] % 6), (x & y) == 0]
+    cons = [pool[j] for j in spec["others"]]
+    cons.insert(spec["pos"], atom)
+    before = {(a, b) for a in range(8) for b in range(8) if all(E.ev(E.from_ast(q), {"mx": a, "my": b})[1] for q in cons)}
+    for cls in (claripy.Solver, claripy.SolverCacheless, claripy.SolverComposite, claripy.SolverHybrid, claripy.SolverReplacement):
+        if spec.get("solver") not in (None, cls.__name__):
+            continue
+        s = cls()
+        cut = spec["cut"]
+        try:
+            if 0 < cut < len(cons):
+                s.add(cons[:cut]); s.simplify(); s.add(cons[cut:])
+            else:
+                s.add(cons)
+            s.simplify()
+        except claripy.errors.ClaripyError as ex:
+            return cls.__name__, "raises", "%s.simplify() raised %r on %s" % (cls.__name__, ex, cons), dict(spec, solver=cls.__name__)
+        after = {(a, b) for a in range(8) for b in range(8) if all(E.ev(E.from_ast(q), {"mx": a, "my": b})[1] for q in s.constraints)}
+        if before != after:
+            return cls.__name__, "model-set-changed", "%s.simplify() changed the models of %s (now %s): lost %s gained %s" % (
+                cls.__name__, cons, s.constraints, sorted(before - after)[:4], sorted(after - before)[:4]), dict(spec, solver=cls.__name__)
+    return None
 
 
 def run(ctx):
@@ -139,6 +212,26 @@ def run(ctx):
                 stack.extend(t.children())
         except Exception:
             pass
+    # ---- extension idioms: k copies of ONE bit in front of a slice (the shape Z3 prints sign_extend in) for ALL small i, hi, lo, one and
+    # two sources, mixed bits, constant fills, explicit sext/zext: genuine sign extensions and every near miss, exhaustively compared
+    nidiom = 0
+    irng = random.Random("C09-extension-idioms:%d" % ctx.seed)   # own stream: the older stages keep theirs
+
+    def idiom_cases():
+        for W in ctx.pick((4, 6), (3, 4, 5, 6, 8)):
+            for cls, tree in G.ext_idioms_all(W, ks=(1, 2) if W < 8 else (1, 3)):
+                yield cls, tree
+        for _ in range(ctx.pick(300, 4000)):
+            yield G.ext_idiom_random(irng)
+    for cls, tree in idiom_cases():
+        bad = ext_idiom_check(tree, irng)
+        ctx.count(); nidiom += 1
+        if bad:
+            fn_name, kind, what = bad
+            ctx.violation("C09/%s/%s/extension-idiom/%s" % (fn_name, kind, cls), what, {"idiom": tree, "class": cls})
+        elif nidiom % 7 == 0:
+            ctx.distinct(("idiom", E.sexpr(tree)))
+    dist["X.extension_idioms"] = nidiom
     unmapped = sorted(k for k in kinds_seen if omap.get(k) is None)
     if unmapped:
         ctx.tie_broken("corr:op_map-coverage", "Z3's simplifier produced declaration kinds that op_map cannot abstract: %s" % unmapped)
@@ -323,6 +416,13 @@ def run(ctx):
             if before != after:
                 ctx.violation("C09/%s.simplify/model-set-changed" % cls.__name__, "%s.simplify() changed the models of %s: lost %s gained %s" % (
                     cls.__name__, cons, sorted(before - after)[:4], sorted(after - before)[:4]), {"solver": cls.__name__, "constraints": [repr(c) for c in cons]})
+    # Solver.simplify over constraints that contain extension idioms (copies of one bit of x in front of a slice of x, compared with a
+    # constant or with y), next to ordinary constraints, in one or two instalments: the model set stays (brute force over 64 assignments)
+    for it in range(ctx.pick(60, 800)):
+        bad = solver_idiom_check(solver_idiom_spec(irng))
+        ctx.count(5)
+        if bad:
+            ctx.violation("C09/%s.simplify/%s/extension-idiom" % (bad[0], bad[1]), bad[2], {"solver_idiom": bad[3]})
     ctx.cov["traces_validated_against_impl"] = sum(dist.values())
     ctx.cov["input_distribution"] = {"templates": dict(dist), "z3_kinds_seen_after_simplify": dict(kinds_seen),
                                      "roundtrip_identical_objects": identical, "fp_constants_round_tripped": nconst, "wide_expressions": nwide,
@@ -335,6 +435,18 @@ def replay(ctx, obj):
 
     def tup(t):
         return tuple(tup(x) if isinstance(x, list) else x for x in t)
+    if "solver_idiom" in r:
+        bad = solver_idiom_check(r["solver_idiom"])
+        print(bad[2] if bad else "Solver.simplify keeps the model set on the current tree")
+        if bad:
+            print("VIOLATION property=C09 replay=(given)"); return 1
+        return 0
+    if "idiom" in r:
+        bad = ext_idiom_check(tup(r["idiom"]), ctx.rng)
+        print(E.sexpr(tup(r["idiom"])), "->", bad or "round trip and simplifications equivalent on the current tree")
+        if bad:
+            print("VIOLATION property=C09 replay=(given)"); return 1
+        return 0
     if "tree" in r:
         t = tup(r["tree"]); a = E.build(t)
         fn = claripy.simplify if r.get("fn") != "backends.z3.simplify" else claripy.backends.z3.simplify
